@@ -980,7 +980,7 @@ impl<'a> ExpressionLoweringManager<'a> {
     let parameters = expression.parameters.parameters.iter().map(|it| it.name.name).collect_vec();
     let source_fn_type = expression.common.type_.as_fn().unwrap();
     let (
-      type_parameters,
+      _,
       hir::FunctionType {
         argument_types: fun_type_without_cx_argument_types,
         return_type: fun_type_without_cx_return_type,
@@ -990,6 +990,21 @@ impl<'a> ExpressionLoweringManager<'a> {
       &source_fn_type.argument_types,
       &source_fn_type.return_type,
     );
+    // The context parameter can mention generic types that the lambda's own type does not
+    // (e.g. a captured `k: K` in a lambda of type `(V) -> V`).
+    let type_parameters = collect_used_generic_types(
+      &hir::FunctionType {
+        argument_types: vec![context_type.dupe()]
+          .into_iter()
+          .chain(fun_type_without_cx_argument_types.iter().cloned())
+          .collect_vec(),
+        return_type: fun_type_without_cx_return_type.clone(),
+      },
+      &self.type_lowering_manager.generic_types,
+    )
+    .into_iter()
+    .sorted()
+    .collect_vec();
     let fn_name = self.allocate_synthetic_fn_name();
     let mut manager = ExpressionLoweringManager::new(
       self.module_reference,
